@@ -16,8 +16,8 @@ cancelled `disconnect` is finding F2b).
 Vocabulary.
  * `Framed bs` (`Proofs/Arena.lean`): header byte, canonical remaining length, exactly that many bytes.
    That each packet is moreover a well-formed MQTT 5 client packet is `Theorems/C01.lean`/`C09`.
- * `w.tornNets` is the one ghost field this proof adds to the model (never printed; the driver's
-   output on all traces is unchanged): the ordinals (1 = first) of the transports on which such a
+ * `w.tornNets` is a ghost field this proof adds to the model (never printed; the driver's
+   output on all traces is unchanged; the other one, `w.log`, is used by `Theorems/C02Wire.lean`): the ordinals (1 = first) of the transports on which such a
    local write was dropped. It is set by `cancelFut` and nowhere else (`C01_mark_only_when_local_write_dropped`).
  * Fuel. The machine functions are defined with fuel for the synchronous code between two I/O calls.
    The theorems below do not assume that it suffices: the proof carries a potential (a decision still
